@@ -67,3 +67,43 @@ func TestReplay_C06_AddAndRemoveInOneNotification(t *testing.T) {
 type rpEventLog struct{ f func(api.EventPayload) }
 
 func (h *rpEventLog) HandleEvent(p api.EventPayload) { h.f(p) }
+
+// Replay for post#cascade-own-entity / cascade-complete of processNotifyDetailedDiscoveryData (C06): a partial
+// notification that removes an entity - with the optional device element of the entity address left out, as peers send
+// it - removes the client-side subscription and binding references to that entity's features, and only those.
+func TestReplay_C06_RemovedEntityClientSideReferences(t *testing.T) {
+	w := rpNewWorld(t, 1)
+	p := w.peers[0]
+	other := NewEntityRemote(p.dev, model.EntityTypeTypeEV, []model.AddressEntityType{2})
+	p.dev.AddEntity(other)
+	srv1 := p.feature(model.FeatureTypeTypeLoadControl, model.RoleTypeServer)
+	srv2 := NewFeatureRemote(other.NextFeatureId(), other, model.FeatureTypeTypeLoadControl, model.RoleTypeServer)
+	other.AddFeature(srv2)
+	lf := w.localFeature(model.FeatureTypeTypeLoadControl, model.RoleTypeClient)
+	for _, a := range []*model.FeatureAddressType{srv1.Address(), srv2.Address()} {
+		if _, err := lf.SubscribeToRemote(a); err != nil {
+			t.Fatalf("setup subscribe: %v", err)
+		}
+		if _, err := lf.BindToRemote(a); err != nil {
+			t.Fatalf("setup bind: %v", err)
+		}
+	}
+	nm := p.dev.FeatureByEntityTypeAndRole(p.dev.Entity(DeviceInformationAddressEntity), model.FeatureTypeTypeNodeManagement, model.RoleTypeSpecial)
+	data := &model.NodeManagementDetailedDiscoveryDataType{
+		DeviceInformation: &model.NodeManagementDetailedDiscoveryDeviceInformationType{Description: &model.NetworkManagementDeviceDescriptionDataType{DeviceAddress: &model.DeviceAddressType{Device: p.dev.Address()}}},
+		EntityInformation: []model.NodeManagementDetailedDiscoveryEntityInformationType{
+			rpEntityInfo(nil, []model.AddressEntityType{1}, model.NetworkManagementStateChangeTypeRemoved),
+		},
+	}
+	msg := &api.Message{FeatureRemote: nm, EntityRemote: nm.Entity(), DeviceRemote: p.dev, FilterPartial: model.NewFilterTypePartial(), CmdClassifier: model.CmdClassifierTypeNotify}
+	if err := w.local.NodeManagement().(*NodeManagement).processNotifyDetailedDiscoveryData(msg, data); err != nil {
+		t.Fatalf("notification rejected: %v", err)
+	}
+	if lf.HasSubscriptionToRemote(srv1.Address()) || lf.HasBindingToRemote(srv1.Address()) {
+		t.Errorf("C06 violated: entity [1] was removed, but the local client feature still lists its subscription (%v) / binding (%v) to that entity's feature",
+			lf.HasSubscriptionToRemote(srv1.Address()), lf.HasBindingToRemote(srv1.Address()))
+	}
+	if !lf.HasSubscriptionToRemote(srv2.Address()) || !lf.HasBindingToRemote(srv2.Address()) {
+		t.Errorf("C06 violated: removing entity [1] also dropped the references to entity [2]")
+	}
+}
